@@ -92,6 +92,14 @@ func customOps(l *Log) map[string]eval.Operator {
 			logCall("one", ps, int64(1), nil)
 			return int64(1), nil
 		},
+		"zt": func(_ *eval.Ctx, ps []eval.Value) (eval.Value, error) {
+			logCall("zt", ps, true, nil)
+			return true, nil
+		},
+		"zf": func(_ *eval.Ctx, ps []eval.Value) (eval.Value, error) {
+			logCall("zf", ps, false, nil)
+			return false, nil
+		},
 		"f": ident("f"),
 		"p": ident("p"),
 		"g": func(_ *eval.Ctx, ps []eval.Value) (eval.Value, error) {
